@@ -19,6 +19,8 @@
  Rp presence      : optional numeric fields are tested with `is None` / membership, never by truthiness (0 is a value).
  Rs sorted        : every numpy.interp abscissa is ascending by construction or by a recorded precondition.
  R7 first reason  : a blocking reason already set is never overwritten by a later check (shared with C19-R9).
+ R8 mode copy    : the selected mode is copied onto the request completely and identically in every copy block.
+ Rn arg roles     : a variable named like a parameter of the callee is handed to that parameter (no exchanged roles).
 """
 import ast
 
@@ -462,6 +464,23 @@ def r7_first_reason(ctx):
     ctx.need('R7.first-reason', 2)
 
 
+def r_mode_copy(ctx):
+    """R8: a mode selected by the planner is copied onto the request completely and identically in every copy block (offset,
+    penalties, baud rate, OSNR threshold, tx OSNR, bit rate, format)"""
+    from .common import mode_copy_rule
+    mode_copy_rule(ctx, 'R8.mode-copy', 'the verdict / the reverse direction would be computed with figures of another mode')
+    ctx.need('R8.mode-copy', 3)
+
+
+def rn_arg_roles(ctx):
+    """Rn: a variable named like a parameter of the callee is handed to that parameter (no exchanged roles such as
+    f(to_degree, from_degree) for def f(from_degree, to_degree)); calls to resolved package functions, canonical form"""
+    from .common import arg_roles_rule
+    from ..memo import scope_funcs
+    n = arg_roles_rule(ctx, 'Rn.arg-roles', scope_funcs(ctx.repo, 'C13'), 'the verdict would be taken on exchanged quantities')
+    ctx.check('Rn.arg-roles', 'argument / parameter name scan', True, 'C13|arg-roles-scan', '', f'{n} argument(s) named like another parameter judged')
+
+
 from ..memo import rule_for as _memo_rule
 
 RULES_MEMO = ('Rm.memo', _memo_rule('C13', 'a verdict would be taken on the figures of another propagation'))
@@ -472,4 +491,4 @@ from ..presence import rule_for as _presence_rule
 RULES_PRESENCE = ('Rp.presence', _presence_rule('C13', 'a legal zero would be read as missing'))
 
 RULES = [('R6.tables', r6_tables), ('R1.verdict', r1_verdicts), ('R2.update-snr', r2_update_snr), ('R3.once', r3_once),
-         ('R4.penalties', r4_penalties), ('R5.order', r5_order), RULES_MEMO, RULES_PRESENCE, ('Rs.sorted-abscissa', rs_sorted), ('R7.first-reason', r7_first_reason)]
+         ('R4.penalties', r4_penalties), ('R5.order', r5_order), RULES_MEMO, RULES_PRESENCE, ('Rs.sorted-abscissa', rs_sorted), ('R7.first-reason', r7_first_reason), ('R8.mode-copy', r_mode_copy), ('Rn.arg-roles', rn_arg_roles)]
